@@ -12,7 +12,7 @@ FUNCTIONS = [
     "batchie.cli.reveal_plate.main", "batchie.cli.extract_screen_metadata.main (argument parsers stubbed)",
 ]
 BOUNDS = {
-    "quick": "4 rows on 3 plates (two screens), every initial per-plate status, symbolic observation values, every history of 2 operations from {reveal(<=2 plate ids incl. repeated / already observed / unknown), mask, unmask, save+load, reveal via CLI}; construction: every per-row mask on 4 rows",
+    "quick": "4 rows on 3 plates (two screens), every initial per-plate status, symbolic observation values, every history of 2 operations from {reveal(<=2 plate ids incl. repeated / already observed / unknown ids -1 and n_plates), mask, unmask, save+load, reveal via CLI}; construction: every per-row mask on 4 rows",
     "thorough": "6 rows on 4 plates, histories of 3 operations",
 }
 ASSUMPTIONS = [
@@ -118,8 +118,8 @@ def h_history(ctx, cfg):
     for step in range(cfg["L"]):
         op = int(ctx.int("op%d" % step, 0, 4))
         if op in (0, 4):  # reveal(list of plate ids), directly or through the CLI
-            a = int(ctx.int("a%d" % step, 0, P))  # id P is unknown
-            b = int(ctx.int("b%d" % step, 0, P)) if op == 0 else a
+            a = int(ctx.int("a%d" % step, -1, P))  # ids -1 and P are unknown
+            b = int(ctx.int("b%d" % step, -1, P)) if op == 0 else a
             if b < a:
                 ctx.assume(False)  # np.isin ignores the order of the list; repeated ids are kept (a == b)
             ids = [a, b]
